@@ -48,6 +48,7 @@ fn code_for(kind: &str) -> Vec<u8> {
         "creator" => asm::creator_runtime(),
         "probe" => asm::probe_runtime(),
         "suicide" => asm::suicide_runtime(),
+        "height" => asm::height_runtime(),
         "badinit" => return vec![asm::INVALID],
         "revinit" => return asm::cat(&[&asm::push(0), &asm::push(0), &[asm::REVERT]]),
         _ => asm::store_runtime(),
@@ -183,21 +184,24 @@ fn gen_case(r: &mut Rng, p: &Params, out: &mut Vec<String>) {
             }
             continue;
         }
-        if roll < 30 {
+        if roll < 33 {
             out.push(gen_read(r, &g));
             continue;
         }
-        if !in_block && roll < 34 && g.height.is_some() {
+        if !in_block && roll < 37 && g.height.is_some() {
             // window-edge scenario: park nonce+1, let exactly 9 / 10 / 11 blocks pass, then submit the missing nonce
             let s = 1 + r.below(3) as u8;
             let acct = *g.nonces.get(&s).unwrap_or(&0);
             if !g.pool.contains_key(&(s, acct + 1)) {
-                let k = *r.pick(&[9u64, 10, 10, 11]);
+                let k = *r.pick(&[9u64, 10, 10, 11, 1, 2]);
                 let p_block = g.next();
                 g.hash += 1;
+                // the parked transaction calls a context probe if one is deployed (C19: it must see its own txid later)
+                let probes: Vec<String> = g.contracts.iter().filter(|c| c.1 == "probe").map(|c| c.0.clone()).collect();
+                let (to, data) = if probes.is_empty() { ("create:store".to_string(), String::new()) } else { (r.pick(&probes).clone(), hex::encode(&keccak256(b"getTxId()")[..4])) };
                 out.push(format!(
-                    "transact signer={} nonce={} to=create:store data= ts={} hash={} idx=0 insc=i{} len={} txid={} field=hex chain=ok junk=false exp=0",
-                    s, acct + 1, g.ts + 600, h256(1_000_000 + g.hash), g.insc, 60_000 + r.below(50_000), h256(0xabc000 + g.insc + 1)
+                    "transact signer={} nonce={} to={} data={} ts={} hash={} idx=0 insc=i{} len={} txid={} field=hex chain=ok junk=false exp=0",
+                    s, acct + 1, to, data, g.ts + 600, h256(1_000_000 + g.hash), g.insc, 60_000 + r.below(50_000), h256(0xabc000 + g.insc + 1)
                 ));
                 g.insc += 1;
                 g.pool.insert((s, acct + 1), p_block);
@@ -210,16 +214,26 @@ fn gen_case(r: &mut Rng, p: &Params, out: &mut Vec<String>) {
                     snaps.insert(h, g.clone());
                 }
                 g.max_ever = g.max_ever.max(g.height.unwrap());
+                // the pool is persistent state: a commit (and a restart) in between must not change what happens
+                if r.chance(50) {
+                    out.push("commit".to_string());
+                    committed = Some(g.clone());
+                    if r.chance(30) {
+                        out.push("reopen".to_string());
+                    }
+                }
                 // the missing nonce arrives in block p_block + k
                 g.ts += 600;
                 g.hash += 1;
                 let bh = 1_000_000 + g.hash;
                 let h = g.next();
                 let mut appended = 1;
-                if let Some(pb) = g.pool.remove(&(s, acct + 1)) {
+                let mut nn = acct + 1;
+                while let Some(pb) = g.pool.remove(&(s, nn)) {
                     if pb + W > h {
                         appended += 1;
                     }
+                    nn += 1;
                 }
                 g.nonces.insert(s, acct + appended);
                 out.push(format!(
@@ -236,7 +250,7 @@ fn gen_case(r: &mut Rng, p: &Params, out: &mut Vec<String>) {
             }
             continue;
         }
-        if roll < 36 {
+        if roll < 39 {
             // a protocol violation; must be rejected without effect
             let which = if in_block {
                 *r.pick(&["idx", "ts", "hash", "fincount", "commitmid", "reorgmid", "minemid", "bothfields", "nofield", "badpk"])
@@ -262,7 +276,7 @@ fn gen_case(r: &mut Rng, p: &Params, out: &mut Vec<String>) {
         let field = if r.chance(35) { "b64" } else { "hex" };
         let started = match r.below(12) {
             0 | 1 => {
-                let kind = *r.pick(&["store", "log1", "log2", "log3", "log4", "log0", "revert", "burn", "worker", "creator", "probe", "suicide", "badinit", "revinit"]);
+                let kind = *r.pick(&["store", "log1", "log2", "log3", "log4", "log0", "revert", "burn", "worker", "creator", "probe", "suicide", "badinit", "revinit", "height", "height"]);
                 let pk = *r.pick(&PKS);
                 out.push(format!("deploy pk={} code={} {} len=auto txid={} field={}", pk, kind, base, txid, field));
                 if kind != "badinit" && kind != "revinit" {
@@ -302,7 +316,7 @@ fn gen_case(r: &mut Rng, p: &Params, out: &mut Vec<String>) {
                     3..=5 => acct + 1 + r.below(3),             // parked
                     _ => acct,                                  // executes (and may drain)
                 };
-                let cands: Vec<&(String, String)> = g.contracts.iter().filter(|c| c.1 == "store" || c.1.starts_with("log")).collect();
+                let cands: Vec<&(String, String)> = g.contracts.iter().filter(|c| c.1 == "store" || c.1.starts_with("log") || c.1 == "probe").collect();
                 let (to, data) = if cands.is_empty() || r.chance(20) {
                     ("create:store".to_string(), vec![])
                 } else {
@@ -385,9 +399,9 @@ fn call_data(r: &mut Rng, kind: &str) -> Vec<u8> {
 
 fn gen_read(r: &mut Rng, g: &GenState) -> String {
     let h = g.height.unwrap_or(0);
-    match r.below(9) {
+    match r.below(17) {
         0 => format!("read kind=block n={}", r.below(h + 2)),
-        1 => {
+        1 | 9 | 10 | 11 => {
             let from = r.below(h + 1);
             let to = match r.below(6) {
                 0 => from + 6,                 // too wide
@@ -405,7 +419,15 @@ fn gen_read(r: &mut Rng, g: &GenState) -> String {
                     _ => "-".to_string(),
                 });
             }
-            format!("read kind=logs from={} to={} addr={} topics={}", from, to, addr, if topics.is_empty() { "none".to_string() } else { topics.join(",") })
+            // bounds: a number, `latest`, or omitted (`-`)
+            let (from_s, to_s) = match r.below(8) {
+                0 => (from.to_string(), "-".to_string()),
+                1 => ("-".to_string(), to.to_string()),
+                2 => ("-".to_string(), "-".to_string()),
+                3 => (from.to_string(), "latest".to_string()),
+                _ => (from.to_string(), to.to_string()),
+            };
+            format!("read kind=logs from={} to={} addr={} topics={}", from_s, to_s, addr, if topics.is_empty() { "none".to_string() } else { topics.join(",") })
         }
         2 => "read kind=txpool".into(),
         3 | 4 => {
@@ -431,6 +453,38 @@ fn gen_read(r: &mut Rng, g: &GenState) -> String {
         }
         6 => format!("read kind=balance pk={} tick={}", r.pick(&PKS), r.pick(&["ordi", "ORDI", "sats"])),
         7 => "read kind=sweep".into(),
+        12 | 13 | 14 | 15 | 16 => {
+            // eth_callMany / eth_estimateGasMany: 1-3 calls with state carry-over; senders include contract addresses
+            // (refused by the EVM before execution), targets include none (creation) and a standard precompile with
+            // malformed input
+            let cands: Vec<&(String, String)> = g.contracts.iter().filter(|c| c.1 != "controller").collect();
+            let mut calls = Vec::new();
+            let n_calls = 1 + r.below(3);
+            // most batches are well-formed (so that the carry-over between calls is exercised); about a third carry
+            // one call the EVM refuses or fails
+            let bad_at = if r.chance(35) { Some(r.below(n_calls)) } else { None };
+            for i in 0..n_calls {
+                let bad = bad_at == Some(i);
+                let (to, data) = match r.below(6) {
+                    _ if bad && r.chance(40) => ("0x0000000000000000000000000000000000000006".to_string(), "01".repeat(1 + r.below(130) as usize)),
+                    _ if bad && r.chance(40) => ("0x0000000000000000000000000000000000000009".to_string(), "00".repeat(r.below(214) as usize)),
+                    0 => ("none".to_string(), hex::encode(code_for(*r.pick(&["store", "log1", "revinit", "badinit"])))),
+                    _ if !cands.is_empty() => {
+                        let c = *r.pick(&cands);
+                        let mut rr = r.fork();
+                        (c.0.clone(), hex::encode(call_data(&mut rr, &c.1)))
+                    }
+                    _ => ("none".to_string(), hex::encode(code_for("store"))),
+                };
+                let from = match r.below(5) {
+                    _ if bad && !g.contracts.is_empty() && r.chance(60) => format!("@{}", r.pick(&g.contracts).0),
+                    1 => "-".to_string(),
+                    _ => r.pick(&PKS).to_string(),
+                };
+                calls.push(format!("{}:{}:{}", to, data, from));
+            }
+            format!("read kind={} calls={}", r.pick(&["callmany", "callmany", "estimatemany"]), calls.join(";"))
+        }
         _ => "read kind=height".into(),
     }
 }
@@ -455,6 +509,7 @@ struct Ctx {
     chain_id: u64,
     kinds: BTreeMap<String, String>, // inscription id of a deploy -> contract kind
     inscribed_len: BTreeMap<(String, u64), u64>, // (signer address, nonce) -> inscription length of the latest submission
+    signed_txid: BTreeMap<(String, u64), String>, // (signer address, nonce) -> Bitcoin txid supplied with the latest submission
     /// tx hashes handed out more than once (known finding F11), with the blocks they were reported in
     dup_blocks: BTreeSet<u64>,
 }
@@ -690,7 +745,7 @@ pub fn exec(lines: &[String], out: &mut Out, scratch: &Path) {
                 chain_id: v::CONFIG.read().chain_id,
                 dup_blocks: BTreeSet::new(),
                 kinds: BTreeMap::new(),
-                inscribed_len: BTreeMap::new(),
+                inscribed_len: BTreeMap::new(), signed_txid: BTreeMap::new(),
             });
             continue;
         }
@@ -900,6 +955,7 @@ fn on_accepted(ctx: &mut Ctx, op: &str, f: &BTreeMap<String, String>, resp: &Res
         if let (Some(n), Some(l)) = (f.get("nonce").and_then(|s| s.parse::<u64>().ok()), f.get("len").and_then(|s| s.parse::<u64>().ok())) {
             if f.get("chain").map(|s| s == "ok").unwrap_or(false) && f.get("junk").map(|s| s == "false").unwrap_or(false) {
                 ctx.inscribed_len.insert((me.clone(), n), l);
+                ctx.signed_txid.insert((me.clone(), n), f.get("txid").cloned().unwrap_or_default());
             }
         }
         for r in &receipts {
@@ -925,6 +981,20 @@ fn on_accepted(ctx: &mut Ctx, op: &str, f: &BTreeMap<String, String>, resp: &Res
             let ti = r["transactionIndex"].as_str().map(|s| u64::from_str_radix(s.trim_start_matches("0x"), 16).unwrap_or(u64::MAX));
             if ti != Some(idx0 + i as u64) {
                 out.oracle_fail(&case, "pool-index", &format!("receipt {} of a transact has index {:?}, expected {}", i, ti, idx0 + i as u64));
+            }
+        }
+    }
+    // C16: the gas recorded in a receipt never exceeds 12000 per inscribed byte (the first receipt belongs to the
+    // submitted inscription; drained parked transactions are judged by `pool-gas` against their own length)
+    if matches!(op, "deploy" | "call" | "transact") {
+        if let (Some(l), Some(r)) = (f.get("len").and_then(|s| s.parse::<u64>().ok()), receipts.first()) {
+            let own = op != "transact" || f.get("exp").map(|e| e != "0").unwrap_or(false);
+            let used = r["gasUsed"].as_str().and_then(|s| u64::from_str_radix(s.trim_start_matches("0x"), 16).ok());
+            if let (true, Some(used)) = (own, used) {
+                if used > l.saturating_mul(12000) {
+                    out.oracle_fail(&case, "gas-allowance", &format!("receipt records {} gas used, the inscription of {} bytes allows {}", used, l, l.saturating_mul(12000)));
+                }
+                out.count("gas-allowance-checked");
             }
         }
     }
@@ -1024,6 +1094,29 @@ fn check_prediction(ctx: &Ctx, op: &str, f: &BTreeMap<String, String>, resp: &Re
 
 /// C19: the context a contract observed (probe contract) is the context the indexer supplied
 fn check_probe(ctx: &Ctx, op: &str, f: &BTreeMap<String, String>, resp: &Resp, out: &mut Out) {
+    let ts: u64 = f.get("ts").and_then(|s| s.parse().ok()).unwrap_or(0);
+    let hash = f.get("hash").cloned().unwrap_or_default();
+    if op == "transact" {
+        // the last transaction a signed submission executed (itself, or the last parked one it drained): it ran in
+        // the block and under the header of this call, as its own signer, with the txid supplied when it was submitted
+        let Some(Value::Array(rcs)) = &resp.ok else { return };
+        let Some(rc) = rcs.last() else { return };
+        if rc["status"].as_str() != Some("0x1") {
+            return;
+        }
+        let Some(to) = rc["to"].as_str().map(|s| s.to_lowercase()) else { return };
+        let is_probe = ctx.labels.iter().any(|(id, a)| a.to_lowercase() == to && ctx.kinds.get(id).map(|k| k == "probe").unwrap_or(false));
+        if !is_probe {
+            return;
+        }
+        let Some(tx) = rc["transactionHash"].as_str().and_then(|h| ctx.main.call("eth_getTransactionByHash", json!([h])).ok) else { return };
+        let from = tx["from"].as_str().unwrap_or("").to_lowercase();
+        let nonce = tx["nonce"].as_str().and_then(|s| u64::from_str_radix(s.trim_start_matches("0x"), 16).ok()).unwrap_or(u64::MAX);
+        let Some(txid) = ctx.signed_txid.get(&(from.clone(), nonce)).cloned() else { return };
+        let sender = format!("{:0>64}", from.trim_start_matches("0x"));
+        check_probe_slots(ctx, &to, ts, &hash, sender, &txid, if rcs.len() > 1 { "drained parked tx" } else { "signed tx" }, out);
+        return;
+    }
     if op != "call" || ctx.kinds.get(&f.get("to").cloned().unwrap_or_default()).map(|s| s.as_str()) != Some("probe") {
         return;
     }
@@ -1032,13 +1125,16 @@ fn check_probe(ctx: &Ctx, op: &str, f: &BTreeMap<String, String>, resp: &Resp, o
         return;
     }
     let Some(addr) = ctx.labels.get(&f.get("to").cloned().unwrap_or_default()).cloned() else { return };
+    let sender = format!("{:0>64}", hex::encode(pkscript_addr(&f.get("pk").cloned().unwrap_or_default()).as_slice()));
+    check_probe_slots(ctx, &addr, ts, &hash, sender, &f.get("txid").cloned().unwrap_or_default(), "inscription call", out);
+}
+
+fn check_probe_slots(ctx: &Ctx, addr: &str, ts: u64, hash: &str, sender: String, txid: &str, what: &str, out: &mut Out) {
     let slot = |n: u64| ctx.main.call("eth_getStorageAt", json!([addr, format!("0x{:x}", n)])).ok.and_then(|v| v.as_str().map(|s| s.trim_start_matches("0x").to_string())).unwrap_or_default();
     let word = |n: u128| format!("{:064x}", n);
     let bn = block_of(ctx);
-    let ts: u64 = f.get("ts").and_then(|s| s.parse().ok()).unwrap_or(0);
-    let hash = f.get("hash").cloned().unwrap_or_default().trim_start_matches("0x").to_string();
+    let hash = hash.trim_start_matches("0x").to_string();
     let hash = if hash.chars().all(|c| c == '0') { word(bn as u128 + 1) } else { hash };
-    let sender = format!("{:0>64}", hex::encode(pkscript_addr(&f.get("pk").cloned().unwrap_or_default()).as_slice()));
     let parent = if bn == 0 {
         word(0)
     } else {
@@ -1055,15 +1151,15 @@ fn check_probe(ctx: &Ctx, op: &str, f: &BTreeMap<String, String>, resp: &Resp, o
         (8, "BASEFEE", word(0)),
         (9, "GASPRICE", word(0)),
         (10, "BLOCKHASH(n-1)", parent),
-        (11, "current txid", f.get("txid").cloned().unwrap_or_default().trim_start_matches("0x").to_string()),
+        (11, "current txid", txid.trim_start_matches("0x").to_string()),
     ];
     for (n, name, w) in want {
         let got = slot(n);
         if got != w {
-            out.oracle_fail(&ctx.case.clone(), "context", &format!("{} observed by the contract is {}, the indexer supplied {}", name, got, w));
+            out.oracle_fail(&ctx.case.clone(), "context", &format!("{}: {} observed by the contract is {}, the indexer supplied {}", what, name, got, w));
         }
     }
-    out.count("probe-checked");
+    out.count(if what == "drained parked tx" { "probe-checked-drained" } else { "probe-checked" });
 }
 
 /// Everything an explorer could ask, over the universe seen so far; wall-clock fields removed.
@@ -1082,7 +1178,8 @@ fn observation(inst: &Inst, ctx: &Ctx) -> Value {
         let raw = inst.call("debug_getRawBlock", json!([format!("{}", n)])).ok;
         let rr = inst.call("debug_getRawReceipts", json!([format!("{}", n)])).ok;
         let tr = inst.call("debug_getBlockTraceString", json!([format!("{}", n)])).ok;
-        blocks.push(json!([b, cnt, raw, rr, tr]));
+        let th = inst.call("debug_getBlockTraceHash", json!([format!("{}", n)])).ok;
+        blocks.push(json!([b, cnt, raw, rr, tr, th]));
     }
     o.insert("blocks".into(), json!(blocks));
     let mut txs = Vec::new();
@@ -1309,9 +1406,30 @@ fn check_coherence(ctx: &mut Ctx, out: &mut Out) {
     // inscription id -> receipt -> same hash
     let n = u64::MAX;
     for (id, th) in &ctx.insc_of {
-        if let Some(rc) = inst.call("brc20_getTxReceiptByInscriptionId", json!([id])).ok.filter(|x| !x.is_null()) {
+        let by_id = inst.call("brc20_getTxReceiptByInscriptionId", json!([id])).ok.filter(|x| !x.is_null());
+        if let Some(rc) = &by_id {
             if rc["transactionHash"].as_str() != Some(th) {
                 fails.push((n, format!("inscription {} resolves to {:?}, the indexer was given {}", id, rc["transactionHash"], th)));
+            }
+        }
+    }
+    // every transaction that is served by hash names an inscription id, and that id leads back to the same receipt
+    // (a re-submission after a rollback may give the same hash a newer inscription id: the row by hash decides)
+    let hashes: BTreeSet<&String> = ctx.known_hashes.iter().collect();
+    for th in hashes {
+        let by_hash = inst.call("eth_getTransactionReceipt", json!([th])).ok.filter(|x| !x.is_null());
+        if by_hash.is_none() {
+            continue;
+        }
+        match inst.call("brc20_getInscriptionIdByTxHash", json!([th])).ok.and_then(|x| x.as_str().map(|s| s.to_string())) {
+            None => fails.push((n, format!("tx {} is served by hash but names no inscription id", th))),
+            Some(id) => {
+                let rc = inst.call("brc20_getTxReceiptByInscriptionId", json!([id])).ok.filter(|x| !x.is_null());
+                match rc {
+                    None => fails.push((n, format!("tx {} names inscription {} but no receipt is served under that id", th, id))),
+                    Some(rc) if rc["transactionHash"].as_str() != Some(th.as_str()) => fails.push((n, format!("tx {} names inscription {}, which resolves to {:?}", th, id, rc["transactionHash"]))),
+                    _ => {}
+                }
             }
         }
     }
@@ -1408,6 +1526,7 @@ fn exec_read(ctx: &mut Ctx, f: &BTreeMap<String, String>, out: &mut Out) {
     let lbi_waiting = ctx.main.state()["lbi"]["waiting_tx_count"].as_u64().unwrap_or(0);
     let mut events_all = Vec::new();
     let mut answer = String::new();
+    let mut logsq: Option<(String, String)> = None;
     let addr_of = |ctx: &Ctx, id: &str| ctx.labels.get(id).cloned();
     match kind.as_str() {
         "height" => {
@@ -1422,12 +1541,31 @@ fn exec_read(ctx: &mut Ctx, f: &BTreeMap<String, String>, out: &mut Out) {
                 answer = if r.is_ok() { "ok".into() } else { "err".into() };
                 events_all.extend(e);
             }
+            // the per-block debug queries (a cache behind any of them would show up against the twin, which never reads)
+            for m in ["debug_getBlockTraceHash", "debug_getBlockTraceString", "debug_getRawBlock", "debug_getRawReceipts", "debug_getRawHeader"] {
+                let (_, e) = run_on(&ctx.main, m, &json!([n]));
+                events_all.extend(e);
+            }
         }
         "logs" => {
-            let (a, b): (u64, u64) = (f.get("from").and_then(|s| s.parse().ok()).unwrap_or(0), f.get("to").and_then(|s| s.parse().ok()).unwrap_or(0));
+            let latest = latest_height(&ctx.main).unwrap_or(0);
+            let bound = |k: &str| -> Option<Option<u64>> {
+                // Some(None) = `latest`, None = omitted
+                match f.get(k).map(|s| s.as_str()) {
+                    None | Some("-") => None,
+                    Some("latest") => Some(None),
+                    Some(s) => Some(Some(s.parse().unwrap_or(0))),
+                }
+            };
+            let (fb, tb) = (bound("from"), bound("to"));
             let mut filter = serde_json::Map::new();
-            filter.insert("fromBlock".into(), json!(format!("0x{:x}", a)));
-            filter.insert("toBlock".into(), json!(format!("0x{:x}", b)));
+            let js = |b: Option<u64>| b.map(|n| json!(format!("0x{:x}", n))).unwrap_or(json!("latest"));
+            if let Some(b) = fb {
+                filter.insert("fromBlock".into(), js(b));
+            }
+            if let Some(b) = tb {
+                filter.insert("toBlock".into(), js(b));
+            }
             let addr = f.get("addr").filter(|s| *s != "-").and_then(|id| ctx.labels.get(id).cloned());
             if let Some(ad) = &addr {
                 filter.insert("address".into(), json!(ad));
@@ -1443,15 +1581,54 @@ fn exec_read(ctx: &mut Ctx, f: &BTreeMap<String, String>, out: &mut Out) {
             }
             let (r, e) = run_on(&ctx.main, "eth_getLogs", &json!([Value::Object(filter)]));
             events_all.extend(e);
-            // C18 range rule: refused iff to - from > 5 in u64 arithmetic (a reversed range wraps)
-            let refused = b.wrapping_sub(a) > 5;
-            if refused == r.is_ok() {
-                out.oracle_fail(&case, "logs-range", &format!("eth_getLogs from {} to {}: ok={} but the range rule says refused={}", a, b, r.is_ok(), refused));
-            }
-            if let Some(Value::Array(logs)) = &r.ok {
-                check_logs(ctx, a, b, logs, addr.as_deref(), topics.as_ref(), out);
+            // the property speaks about explicit ranges (a number or `latest`); what an omitted bound means is
+            // left to the model correspondence (`logsq` line below)
+            if let (Some(fb), Some(tb)) = (fb, tb) {
+                let (a, b) = (fb.unwrap_or(latest), tb.unwrap_or(latest));
+                // C18 range rule: refused iff to - from > 5 in u64 arithmetic (a reversed range wraps)
+                let refused = b.wrapping_sub(a) > 5;
+                if refused == r.is_ok() {
+                    out.oracle_fail(&case, "logs-range", &format!("eth_getLogs from {} to {}: ok={} but the range rule says refused={}", a, b, r.is_ok(), refused));
+                }
+                if let Some(Value::Array(logs)) = &r.ok {
+                    check_logs(ctx, a, b, logs, addr.as_deref(), topics.as_ref(), out);
+                }
             }
             answer = if r.is_ok() { "ok".into() } else { "err".into() };
+            // model correspondence: every log the receipts hold (chain order), the filter, and what came back
+            let ident = |lg: &Value| {
+                let n = |k: &str| lg[k].as_str().and_then(|s| u64::from_str_radix(s.trim_start_matches("0x"), 16).ok()).unwrap_or(u64::MAX);
+                format!("{}.{}.{}", n("blockNumber"), n("transactionIndex"), n("logIndex"))
+            };
+            let mut all = Vec::new();
+            for n in 0..=(latest + 1) {
+                let mut i = 0u64;
+                loop {
+                    let tx = ctx.main.call("eth_getTransactionByBlockNumberAndIndex", json!([n, i])).ok.filter(|t| !t.is_null());
+                    let Some(tx) = tx else { break };
+                    if let Some(rc) = ctx.main.call("eth_getTransactionReceipt", json!([tx["hash"]])).ok.filter(|r| !r.is_null()) {
+                        for lg in rc["logs"].as_array().cloned().unwrap_or_default() {
+                            let ts: Vec<String> = lg["topics"].as_array().map(|a| a.iter().filter_map(|t| t.as_str().map(|s| s.to_lowercase())).collect()).unwrap_or_default();
+                            all.push(format!("{}@{}/{}", ident(&lg), lg["address"].as_str().unwrap_or("").to_lowercase(), ts.join("/")));
+                        }
+                    }
+                    i += 1;
+                    if i > 10_000 {
+                        break;
+                    }
+                }
+            }
+            let show_b = |b: Option<Option<u64>>| match b { None => "-".to_string(), Some(None) => latest.to_string(), Some(Some(n)) => n.to_string() };
+            let tspec = match &topics {
+                None => "none".to_string(),
+                Some(ts) => ts.iter().zip(f.get("topics").unwrap().split(',')).map(|(alts, raw)| {
+                    if alts.is_empty() { "-".to_string() } else if raw.contains('|') { format!("[{}]", alts.join("|")) } else { alts[0].clone() }
+                }).collect::<Vec<_>>().join(","),
+            };
+            logsq = Some((
+                format!("logsq latest={} from={} to={} addr={} topics={} all={}", latest, show_b(fb), show_b(tb), addr.clone().map(|a| a.to_lowercase()).unwrap_or("-".into()), tspec, if all.is_empty() { "-".to_string() } else { all.join(";") }),
+                match &r.ok { Some(Value::Array(logs)) => format!("ok {}", logs.iter().map(|l| ident(l)).collect::<Vec<_>>().join(",")), _ => "err".to_string() },
+            ));
         }
         "txpool" => {
             let (r, e) = run_on(&ctx.main, "txpool_content", &json!([]));
@@ -1473,6 +1650,42 @@ fn exec_read(ctx: &mut Ctx, f: &BTreeMap<String, String>, out: &mut Out) {
             if kind == "estimate" {
                 check_estimate(ctx, &e, &r, out);
             }
+        }
+        "callmany" | "estimatemany" => {
+            if lbi_waiting != 0 {
+                return;
+            }
+            let mut calls = Vec::new();
+            for c in f.get("calls").cloned().unwrap_or_default().split(';') {
+                let p: Vec<&str> = c.split(':').collect();
+                if p.len() != 3 {
+                    continue;
+                }
+                let mut call = serde_json::Map::new();
+                if p[0] != "none" {
+                    let Some(to) = (if p[0].starts_with("0x") { Some(p[0].to_string()) } else { addr_of(ctx, p[0]) }) else { continue };
+                    call.insert("to".into(), json!(to));
+                }
+                call.insert("data".into(), json!(format!("0x{}", p[1])));
+                if let Some(label) = p[2].strip_prefix('@') {
+                    let Some(a) = addr_of(ctx, label) else { continue };
+                    call.insert("from".into(), json!(a));
+                } else if p[2] != "-" {
+                    call.insert("from".into(), json!(format!("{:?}", pkscript_addr(p[2]))));
+                }
+                calls.push(Value::Object(call));
+            }
+            let m = if kind == "callmany" { "eth_callMany" } else { "eth_estimateGasMany" };
+            let (r, e) = run_on(&ctx.main, m, &json!([calls]));
+            events_all.extend(e);
+            if r.panicked {
+                out.oracle_fail(&case, "panic", &format!("{} panicked: {:?}", m, f));
+            }
+            answer = if r.is_ok() { "ok".into() } else { "err".into() };
+            if std::env::var("VERIF_DEBUG").is_ok() {
+                eprintln!("{} {:?} -> {:?}", m, calls, r);
+            }
+            out.count(if r.is_ok() { "many-ok" } else { "many-err" });
         }
         "balance" => {
             if lbi_waiting != 0 {
@@ -1503,6 +1716,9 @@ fn exec_read(ctx: &mut Ctx, f: &BTreeMap<String, String>, out: &mut Out) {
     let evs: Vec<String> = events_all.iter().filter(|e| e.starts_with("S ") || e.starts_with("W ") || e.starts_with("X dbcommit")).cloned().collect();
     let _ = answer;
     out.line(&format!("read kind={} ## {}", kind, evs.join(" ## ")), &format!("ok | {}", after));
+    if let Some((op, ans)) = logsq {
+        out.line(&op, &ans);
+    }
 }
 
 /// C18: the logs returned are exactly the logs of the receipts in range, in chain order
@@ -1678,7 +1894,7 @@ pub fn exec_locks(lines: &[String], out: &mut Out, scratch: &Path, out_dir: &Pat
                 case: line.split(' ').nth(1).unwrap_or("?").to_string(), history: Vec::new(), labels: BTreeMap::new(),
                 known_addrs: BTreeSet::new(), known_hashes: Vec::new(), receipts: BTreeMap::new(), insc_of: BTreeMap::new(),
                 height: None, chain_id: v::CONFIG.read().chain_id, dup_blocks: BTreeSet::new(), kinds: BTreeMap::new(),
-                inscribed_len: BTreeMap::new(),
+                inscribed_len: BTreeMap::new(), signed_txid: BTreeMap::new(),
             });
             out.case(line.split(' ').nth(1).unwrap_or("?"));
             continue;
@@ -1737,7 +1953,7 @@ fn fresh_ctx(main: Inst, twin: Inst, rt: &Arc<tokio::runtime::Runtime>, scratch:
         main, twin, twin_mode: 0, rt: rt.clone(), scratch: scratch.to_path_buf(), n_inst, case: case.to_string(),
         history: Vec::new(), labels: BTreeMap::new(), known_addrs: BTreeSet::new(), known_hashes: Vec::new(),
         receipts: BTreeMap::new(), insc_of: BTreeMap::new(), height: None, chain_id: v::CONFIG.read().chain_id,
-        dup_blocks: BTreeSet::new(), kinds: BTreeMap::new(), inscribed_len: BTreeMap::new(),
+        dup_blocks: BTreeSet::new(), kinds: BTreeMap::new(), inscribed_len: BTreeMap::new(), signed_txid: BTreeMap::new(),
     }
 }
 
@@ -1808,6 +2024,7 @@ pub fn exec_crash(lines: &[String], out: &mut Out, scratch: &Path, ops_file: &Pa
         let mut min_target_since: Option<u64> = None;   // lowest reorg target attempted since
         let mut max_ever: u64 = 0;
         let mut points: Vec<(usize, u64, Option<u64>, u64, Option<u64>, Vec<(u64, String)>)> = Vec::new(); // (line, writes, committed before, max_ever, reorg target, durable history)
+        let mut point_tables: Vec<Vec<String>> = Vec::new(); // per point: the table of every write
         let mut blocks_of: Vec<u64> = Vec::new();       // block each line belongs to
         let mut hist: Vec<(u64, String, bool)> = Vec::new(); // accepted ops: block, line, covered by a commit
         for (i, l) in script.iter().enumerate() {
@@ -1822,8 +2039,13 @@ pub fn exec_crash(lines: &[String], out: &mut Out, scratch: &Path, ops_file: &Pa
             }
             let Some((m, p)) = params_for(&ctx, &op, &f) else { continue };
             v::reset_write_count();
+            let _ = v::take_events();
+            v::set_enabled(true);
             let r = ctx.main.call(&m, p);
+            v::set_enabled(false);
             let writes = v::write_count();
+            // the table each persistent write went to (history column and value column of a table count as one)
+            let wtables: Vec<String> = v::take_events().iter().filter(|e| e.starts_with("W ")).map(|e| e.split(' ').nth(1).unwrap_or("").trim_end_matches("_cache").to_string()).collect();
             if err_class(&r) != "ok" {
                 continue;
             }
@@ -1837,6 +2059,7 @@ pub fn exec_crash(lines: &[String], out: &mut Out, scratch: &Path, ops_file: &Pa
                 let target = f.get("n").and_then(|s| s.parse::<u64>().ok());
                 let durable: Vec<(u64, String)> = hist.iter().filter(|h| h.2).map(|h| (h.0, h.1.clone())).collect();
                 points.push((i, writes, committed, max_ever, if op == "reorg" { target } else { None }, durable));
+                point_tables.push(wtables.clone());
                 committed = ctx.height;
                 min_target_since = None;
             }
@@ -1882,6 +2105,19 @@ pub fn exec_crash(lines: &[String], out: &mut Out, scratch: &Path, ops_file: &Pa
                 let mut v: Vec<u64> = vec![0, 1, 2, writes - 1, writes / 2];
                 for _ in 0..6 {
                     v.push(r.below(writes));
+                }
+                // between tables: right before the first write of every table, and one write into it (the theorems
+                // are per table; the order of the tables is exercised here)
+                let tabs = &point_tables[pi];
+                if tabs.len() as u64 == writes {
+                    for j in 1..tabs.len() {
+                        if tabs[j] != tabs[j - 1] {
+                            v.push(j as u64);
+                            if (j as u64) + 1 < writes {
+                                v.push(j as u64 + 1);
+                            }
+                        }
+                    }
                 }
                 v.sort();
                 v.dedup();
